@@ -20,7 +20,7 @@ from vmc.c01 import _write_pins, enumerate_cases, enumerate_plan
 from vmc.common import HarnessError, Report, pmap
 
 BACKTICK = sqlgen.BACKTICK
-KINDS = ["nl", "blank", "block", "line", "kwupper", "idupper", "quote", "semi"]
+KINDS = ["nl", "blank", "block", "line", "kwupper", "idupper", "quote", "semi", "semi_block", "semi_line"]
 
 
 def lex(sql, dialect):
@@ -61,6 +61,8 @@ def sites(toks, dialect):
         if k == "ident" and raw == raw.lower():
             out.append(("quote", i))
     out.append(("semi", len(toks)))
+    out.append(("semi_block", len(toks)))
+    out.append(("semi_line", len(toks)))
     return out
 
 
@@ -87,8 +89,13 @@ def apply(toks, dialect, chosen):
             raw = quote_of(dialect).format(raw)
         parts.append(pre + raw)
     text = "".join(parts)
-    if "semi" in by.get(len(toks), []):
+    tail = by.get(len(toks), [])
+    if "semi" in tail:
         text += ";;"
+    if "semi_block" in tail:
+        text += "; /* c;c */ ;"
+    if "semi_line" in tail:
+        text += ";\n-- c;c\n;\n"
     return text
 
 
